@@ -366,21 +366,49 @@ def _float_closed(cfg, rng):
     return False, "ok"
 
 
-def _float_plumbing(cfg, rng):
+def _float_plumbing(cfg, rng, env=None, family="generic"):
     import glotaran.builtin.megacomplexes.decay.decay_matrix_gaussian_irf as gk
     import glotaran.builtin.megacomplexes.decay.util as du
     from glotaran.builtin.megacomplexes.decay.irf import IrfMultiGaussian
     from glotaran.builtin.megacomplexes.decay.irf import IrfSpectralMultiGaussian
 
     ng, nc = cfg["ng"], cfg["nc"]
-    mus = rng.uniform(-0.3, 0.3, nc)
-    sigs = rng.uniform(0.1, 0.5, nc)
-    k, t = float(rng.uniform(0.3, 3)), float(rng.uniform(-0.5, 2))
-    lam = np.sort(rng.uniform(400, 700, ng))
-    shifts = rng.uniform(-0.2, 0.2, ng) if cfg["shift"] else None
-    cds = rng.uniform(-0.05, 0.05, cfg["cd"])
-    wds = rng.uniform(0.0, 0.02, cfg["wd"])
-    lc = 550.0
+    tol = 1e-9
+    if family == "narrow-far":
+        # a narrow pulse far from time zero: per-index differences are small against the centre, large against the width
+        c0 = float(rng.choice([100.0, -40.0, 1000.0]))
+        sigs = rng.uniform(1e-3, 5e-3, nc)
+        mus = c0 + rng.uniform(-2, 2, nc) * sigs[0]
+        k, t = float(rng.uniform(0.3, 3) / sigs[0]), float(c0 + rng.uniform(-2, 8) * sigs[0])
+        lam = np.sort(rng.uniform(400, 700, ng))
+        shifts = rng.uniform(-1.5, 1.5, ng) * sigs[0] if cfg["shift"] else None
+        cds = rng.uniform(-1, 1, cfg["cd"]) * sigs[0]
+        wds = rng.uniform(0.0, 0.3, cfg["wd"]) * sigs[0]
+        lc = 550.0
+        tol = 1e-6
+    else:
+        mus = rng.uniform(-0.3, 0.3, nc)
+        sigs = rng.uniform(0.1, 0.5, nc)
+        k, t = float(rng.uniform(0.3, 3)), float(rng.uniform(-0.5, 2))
+        lam = np.sort(rng.uniform(400, 700, ng))
+        shifts = rng.uniform(-0.2, 0.2, ng) if cfg["shift"] else None
+        cds = rng.uniform(-0.05, 0.05, cfg["cd"])
+        wds = rng.uniform(0.0, 0.02, cfg["wd"])
+        lc = 550.0
+    if env:
+        # the solver's counterexample point itself (branch region of the path that failed)
+        def g(nm, dflt):
+            v = env.get(nm)
+            return float(v) if v is not None and np.isfinite(v) and abs(v) < 1e6 else float(dflt)
+
+        mus = np.array([g(f"mu{i}", mus[i]) for i in range(nc)])
+        sigs = np.array([g(f"sig{i}", sigs[i]) for i in range(nc)])
+        k, t, lc = g("k", k), g("t", t), g("lc", lc)
+        lam = np.array([g(f"lam{i}", lam[i]) for i in range(ng)])
+        if shifts is not None:
+            shifts = np.array([g(f"sh{i}", shifts[i]) for i in range(ng)])
+        cds = np.array([g(f"cd{i}", cds[i]) for i in range(cfg["cd"])])
+        wds = np.array([g(f"wd{i}", wds[i]) for i in range(cfg["wd"])])
     kw = dict(label="irf", center=[_param(f"mu{i}", float(m)) for i, m in enumerate(mus)],
               width=[_param(f"sig{i}", float(s)) for i, s in enumerate(sigs)],
               shift=[_param(f"sh{i}", float(s)) for i, s in enumerate(shifts)] if shifts is not None else None, normalize=False)
@@ -400,8 +428,8 @@ def _float_plumbing(cfg, rng):
         wid = np.array([sigs[g] + sum(c * d ** (p + 1) for p, c in enumerate(wds)) for g in range(nc)])
         m_i = np.zeros((1, 1))
         gk.calculate_decay_matrix_gaussian_irf_on_index(m_i, np.array([k]), np.array([t]), cen, wid, np.ones(nc), False, 0.0)
-        if abs(matrix[i, 0, 0] - m_i[0, 0]) > 1e-9 * max(abs(m_i[0, 0]), 1e-9):
-            return True, (f"{cfg['name']}: global index {i} (axis value {lam[i]}): matrix entry {matrix[i, 0, 0]}, index independent "
+        if abs(matrix[i, 0, 0] - m_i[0, 0]) > tol * max(abs(m_i[0, 0]), 1e-9):
+            return True, (f"{cfg['name']}: rate {k}, time {t}, global index {i} (axis value {lam[i]}): matrix entry {matrix[i, 0, 0]}, index independent "
                           f"matrix with effective centre {cen.tolist()} / width {wid.tolist()} gives {m_i[0, 0]}")
     return False, "ok"
 
@@ -409,11 +437,17 @@ def _float_plumbing(cfg, rng):
 def replay(data):
     cfg = data["cfg"]
     rng = np.random.default_rng(12345)
-    for _ in range(25):
+    env = data.get("env") or None
+    for trial in range(25 + (1 if env and cfg["kind"] != "closed" else 0)):
         try:
             with warnings.catch_warnings():
                 warnings.simplefilter("ignore")
-                v, d = (_float_closed if cfg["kind"] == "closed" else _float_plumbing)(cfg, rng)
+                if cfg["kind"] == "closed":
+                    v, d = _float_closed(cfg, rng)
+                elif env and trial == 0:
+                    v, d = _float_plumbing(cfg, rng, env=env)
+                else:
+                    v, d = _float_plumbing(cfg, rng, family="narrow-far" if trial % 2 else "generic")
         except Exception as ex:  # noqa: BLE001
             return True, f"{cfg['name']}: {type(ex).__name__}: {ex}"
         if v:
